@@ -375,13 +375,31 @@ func init() {
 			{"Int32", "(i -2147483648 2147483647)", "-2147483648", "2147483647"},
 			{"Uint32", "(u 0 4294967295)", "0", "4294967295"},
 		}
-		for i := 0; i < 30*scale; i++ {
+		// thresholds in the top bit ranges of the 64-bit kinds are always included
+		fixed := [][2]string{
+			{"Uint64", "9223372036854775808"}, {"Uint64", "9223372036854775809"}, {"Uint64", "13835058055282163712"},
+			{"Uint64", "18446744073709551614"}, {"Uint64", "4611686018427387905"}, {"Int64", "4611686018427387905"},
+			{"Int64", "-4611686018427387905"}, {"Int64", "9223372036854775806"}, {"Int64", "-9223372036854775807"},
+		}
+		for i := 0; i < 30*scale+len(fixed); i++ {
 			k := kinds[r.intn(len(kinds))]
 			lo, hi := atoBig(A(k.lo)), atoBig(A(k.hi))
 			// threshold: 0, ±1, 2^j, 2^j ± 1, type extremes, random
 			th := toBig(int64(0))
 			j := uint(r.intn(64))
-			switch r.intn(6) {
+			mode := r.intn(6)
+			if i < len(fixed) {
+				for _, kk := range kinds {
+					if kk.name == fixed[i][0] {
+						k = kk
+					}
+				}
+				lo, hi = atoBig(A(k.lo)), atoBig(A(k.hi))
+				th = atoBig(A(fixed[i][1]))
+				mode = 99
+			}
+			switch mode {
+			case 99:
 			case 0:
 				th = toBig(r.pick(0, 1, -1, 2, 5, 17))
 			case 1:
